@@ -78,6 +78,9 @@ ROWS = [
     ("C13", "fixed", "fix: MeshTet1 adaptive refinement enlarges its work arrays", "F22",
      "op-raised/refine_adaptive/MeshTet1",
      "MeshTet1.refined(marked) raised ValueError (fixed-size work arrays 8*nt / 9*nv / 8*nv) when the closure of a large marked set on a small mesh needs more than 8*nt elements; found once in 60000 thorough runs"),
+    ("C13", "fixed", "fix: MeshTet1 adaptive refinement scales its tie-breaking", "F23",
+     "conforming-hanging-node-or-hole/refine_adaptive/MeshTet1",
+     "MeshTet1.refined(marked) on a mesh with coordinates of size 1000 (MeshTet.init_ball() in other units) returned a mesh with a hanging node: the noise that breaks ties between equally long edges had the absolute size 1e-10; 2 of 60000 thorough runs"),
     ("C18", "known", None, "K1",
      "conforming-hanging-node-or-hole/split/MeshHex1",
      "MeshHex1.to_meshtet on a mesh whose hexahedra do not all use the same local orientation (e.g. a file mesh; any of the 24 rotations of the reference numbering is admissible): the fixed 6-tetrahedra template cuts a shared quadrilateral face along different diagonals from its two sides, the tetrahedral mesh is not conforming"),
